@@ -729,14 +729,19 @@ _COMPONENTS = ('source', 'pipeline', 'evaluation')
 
 @st.composite
 def package_spec(draw):
-    package = '.'.join(draw(st.lists(st.sampled_from(['p_a', 'p_b', 'p_c', 'q1', 'Zz_9', '_u']), min_size=1, max_size=3, unique=True)))
+    package = '.'.join(
+        draw(st.lists(st.sampled_from(['p_a', 'p_b', 'p_c', 'q1', 'Zz_9', '_u']), min_size=1, max_size=draw(st.sampled_from([1, 1, 2, 3])), unique=True))
+    )
     marks = draw(st.lists(st.integers(1, 10**6), min_size=3, max_size=3, unique=True))
     comps = {}
     for comp, mark in zip(_COMPONENTS, marks):
-        where = draw(st.sampled_from(['conv', 'conv', 'conv-mapped', 'rel', 'abs', 'sub']))
+        where = draw(st.sampled_from(['conv', 'conv', 'conv-mapped', 'rel', 'rel', 'abs', 'sub']))
+        mod = f"m_{comp[:3]}_{draw(st.sampled_from(['x', 'y1', 'Zed', 'source', 'main']))}"
+        if '.' not in package and where == 'rel' and draw(st.booleans()):
+            mod = f'{package}_{comp[:3]}'  # a package-relative module whose name merely begins with the package name
         comps[comp] = {
             'where': where,
-            'mod': f"m_{comp[:3]}_{draw(st.sampled_from(['x', 'y1', 'Zed', 'source', 'main']))}",
+            'mod': mod,
             'mark': mark,
             'present': True if comp != 'evaluation' else draw(st.sampled_from([True, True, False])),
         }
